@@ -493,7 +493,7 @@ LAW_TEXT = {
 }
 
 
-def law(ctx, *names):
+def law(ctx, *names, configs=None):
     gen = A.entry_generator(ctx.repo)
     ctx.touch(gen)
     if "regenerated" in names:
@@ -502,6 +502,8 @@ def law(ctx, *names):
         ctx.ob(f"{gen.key}:regenerated", gen.loc(), text, not ps, "; ".join(ps[:2]) + ": " + why)
         names = tuple(n for n in names if n != "regenerated")
     for cfg in CONFIGS:
+        if configs is not None and cfg not in configs:
+            continue
         probs = check_entry(ctx, cfg)
         if "call-shapes" in names:
             probs = dict(probs)
